@@ -53,6 +53,8 @@ package dns
 //@ func (tsigHMACProvider).Verify [C11]
 //@   requires t != nil
 //@   exit eq: ret0 == nil ==> callres("Equal")
+//@   callsite "Equal" whole: same(arg0, b) && same(arg1, mac) && same(b, callres("Generate", 0))
+//@   callsite "DecodeString" recmac: arg0 == t.MAC
 //@ func (tsigHMACProvider).Generate [C11]
 //@   requires t != nil
 //@ func (tsigSecretProvider).Verify [C11]
